@@ -28,7 +28,9 @@ RULE = ('configuration cells enumerated: 4 estimator classes x n_splits 2..6 (3.
         'rows with missing values, non-default index, optional bound, median/mean; cases are run twice with the same '
         'random_state (incl. the falsy seed 0 for every class); warm-start learners (a fit continues from what the '
         'object has seen); histories of 3 respecify+fit steps with varying n_splits / n_partitions / method / learners '
-        'on one object, each judged like a single fit and the last compared with a fresh object.  distinct = distinct (class, n_splits, n_partitions, n, data seed); non-trivial = n not '
+        'on one object, each judged like a single fit and the last compared with a fresh object; pairs of analyses in '
+        'one process on different data of equal length with the same n_splits and seed; functional-style learners (fit '
+        'returns a new object) and learners the user pre-fitted on the full data.  distinct = distinct (class, n_splits, n_partitions, n, data seed); non-trivial = n not '
         'divisible by n_splits or n_partitions > 1')
 ASSUMPTIONS = ['DataFrame.sample(n=m, random_state=RandomState(seed)) returns m distinct rows of its argument '
                '(measured on a reference invocation per observed draw)',
@@ -62,16 +64,18 @@ class _SpyBase(BaseEstimator):
     `nested=True` the fitted state lives in a nested object (composite learner).  What a copy's current fit saw
     is always read from that state object at prediction time."""
 
-    def __init__(self, role='t', inner=None, nested=False, warm=False):
+    def __init__(self, role='t', inner=None, nested=False, warm=False, functional=False):
         self.role = role
         self.inner = inner
         self.nested = nested
+        self.functional = functional   # functional style: fit() returns a NEW fitted object, the receiver is unchanged
         self.warm = warm      # warm start: fit() continues from what the object has already seen (sklearn warm_start)
         if nested:
             self.state = _State()
 
     def get_params(self, deep=True):
-        return {'role': self.role, 'inner': self.inner, 'nested': self.nested, 'warm': self.warm}
+        return {'role': self.role, 'inner': self.inner, 'nested': self.nested, 'warm': self.warm,
+                'functional': self.functional}
 
     def set_params(self, **p):
         for k, v in p.items():
@@ -86,7 +90,7 @@ class _SpyBase(BaseEstimator):
         X = np.asarray(X)
         prev = getattr(self, 'state', None)
         carried = list(prev.train_ids) if (self.warm and prev is not None) else []
-        st = self.state if self.nested else _State()
+        st = self.state if (self.nested and not self.functional) else _State()
         st.fit_id = next(_COUNTER)
         ids = [int(v) for v in X[:, 0]]
         # `train_ids` = everything the fitted state has seen: for a warm-start learner a fit on an object that was
@@ -95,8 +99,12 @@ class _SpyBase(BaseEstimator):
         st.salt = (sum(st.train_ids) * 31 + len(st.train_ids)) % 997
         if self.inner is not None:
             st.inner = copy.deepcopy(self.inner).fit(X, np.asarray(y))
-        self.state = st
         LOG.append({'ev': 'fit', 'role': self.role, 'fit_id': st.fit_id, 'ids': ids})
+        if self.functional:
+            new = copy.copy(self)
+            new.state = st
+            return new
+        self.state = st
         return self
 
     def _values(self, X, how):
@@ -138,8 +146,22 @@ def _pipeline(spy):
     return Pipeline([('pass', FunctionTransformer(validate=False)), ('spy', spy)])
 
 
-def make_learners(kind, continuous):
+def _design(df):
+    """complete rows of the caller's frame as the arrays the estimators build (row id first)"""
+    d = df.dropna()
+    return (np.asarray(d[['rid', 'L1', 'L2']]), np.asarray(d['A']),
+            np.asarray(d[['rid', 'A', 'L1', 'L2']]), np.asarray(d['Y']))
+
+
+def make_learners(kind, continuous, df=None):
     ycls = SpyReg if continuous else SpyProba
+    if kind.endswith('_prefit'):
+        # the user hands in learners already fitted on the FULL data (cross-fitting must refit a copy per part)
+        a_l, y_l = make_learners(kind[:-len('_prefit')], continuous)
+        Xa, ya, Xy, yy = _design(df)
+        return a_l.fit(Xa, ya), y_l.fit(Xy, yy)
+    if kind == 'functional':      # functional-style learners: fit returns a new fitted object
+        return SpyProba('t', functional=True), ycls('y', functional=True)
     if kind == 'proba':
         return SpyProba('t'), ycls('y')
     if kind == 'reg':
@@ -167,8 +189,10 @@ def make_learners(kind, continuous):
     return SpyProba('t', inner_a), SpyProba('y', LogisticRegression(C=0.5, max_iter=200))
 
 
-KINDS = ['proba', 'nested', 'warm', 'reg', 'pipeline', 'real', 'warm_nested', 'nested_reg', 'nested_real', 'warm_pipeline']
-KINDS_TINY = ['proba', 'nested', 'warm', 'reg', 'pipeline', 'nested_reg', 'warm_nested']
+KINDS = ['proba', 'nested', 'warm', 'functional_prefit', 'reg', 'pipeline', 'real', 'warm_nested', 'proba_prefit',
+         'nested_reg', 'functional', 'nested_real', 'warm_pipeline', 'nested_prefit', 'pipeline_prefit']
+KINDS_TINY = ['proba', 'nested', 'warm', 'functional_prefit', 'reg', 'pipeline', 'nested_reg', 'warm_nested',
+              'nested_prefit']
 
 
 def gen_data(case):
@@ -192,8 +216,11 @@ def gen_data(case):
         idx = r.permutation(n) + 7
     elif case['index'] == 'offset':
         idx = idx + 100
-    df = pd.DataFrame({'rid': np.arange(n, dtype=float), 'A': A, 'L1': L1, 'L2': L2, 'Y': Y}, index=idx)
-    rows = [int(i) for i in np.arange(n)[~miss]]
+    # row identifiers are specific to the data set (two data sets of the same length share no identifier), so rows
+    # of another analysis in the same process are recognised as foreign
+    base = (case['data_seed'] % 89) * 1000
+    df = pd.DataFrame({'rid': base + np.arange(n, dtype=float), 'A': A, 'L1': L1, 'L2': L2, 'Y': Y}, index=idx)
+    rows = [int(base + i) for i in np.arange(n)[~miss]]
     return df, rows
 
 
@@ -218,7 +245,7 @@ def run_steps(case, steps):
     warnings.simplefilter('ignore')     # statsmodels re-enables its own categories at import time
     est = None
     for st in steps:
-        a_l, y_l = make_learners(st['kind'], case['continuous'])
+        a_l, y_l = make_learners(st['kind'], case['continuous'], df)
         del LOG[:]
         res, err, lside = None, None, False
         try:
@@ -421,6 +448,19 @@ def check_history(chk, drv, case):
           {'case': case, 'history_result': resh, 'fresh_result': resf, 'history_err': errh, 'fresh_err': errf})
 
 
+def check_pair(chk, drv, case):
+    """two analyses in ONE process on DIFFERENT data sets with the same number of analysed rows, the same n_splits
+    and the same random_state (a simulation loop with a fixed seed): each must split, fit and predict its own rows"""
+    double = CLASSES[case['cls']]
+    chk.case(case, ('pair', case['cls'], case['data_seed']))
+    chk.count('pair_' + case['cls'])
+    for ds in (case['data_seed'], case['data_seed2']):
+        c = dict(case, data_seed=ds)
+        log, res, err, rows = run_impl(c)
+        lside = c.pop('_learner_side', False)
+        analyse(chk, drv, dict(case, data_seed=ds), step_of(case), log, err, lside, rows, double)
+
+
 def make_history(rng, cls, tier):
     double = CLASSES[cls]
     lo = 3 if double else 2
@@ -431,7 +471,8 @@ def make_history(rng, cls, tier):
         ks = sorted(ks) if rng.uniform() < 0.7 else ks
     if ks[0] == max(ks):                 # every history contains at least one increase of n_splits
         ks[0], ks[1] = ks[1], ks[0]
-    kinds = [str(v) for v in rng.choice(['proba', 'nested', 'warm', 'reg', 'warm_nested'], size=3)]
+    kinds = [str(v) for v in rng.choice(['proba', 'nested', 'warm', 'reg', 'warm_nested', 'functional_prefit',
+                                         'nested_prefit'], size=3)]
     case['history'] = [{'k': k_, 'npart': int(rng.integers(1, 4)), 'method': str(rng.choice(['median', 'mean'])),
                         'random_state': int(rng.integers(0, 2 ** 31)), 'kind': kd,
                         'bound': (False if rng.uniform() < 0.6 else 0.05)} for k_, kd in zip(ks, kinds)]
@@ -500,6 +541,14 @@ def run(chk, drv, rng, tier):
                 case['random_state'] = int(seed)
                 case['twice'] = True
                 check_case(chk, drv, case)
+            # same length, same n_splits, same seed, different data -- in one process
+            for seed in ((0, 17) if tier == 'thorough' else (int(rng.integers(0, 3)),)):
+                case = make_case(rng, cls, int(rng.integers(3 if double else 2, 6)), 1 if tier == 'quick' else 2, tier,
+                                 kind=KINDS[(count + 3) % len(KINDS)])
+                case['random_state'] = int(seed)
+                case['data_seed2'] = case['data_seed'] + 1 + int(rng.integers(0, 80))
+                case['twice'] = False
+                guarded(chk, check_pair, chk, drv, case)
             # histories of fits on one object vs a fresh object
             for _ in range(1 if tier == 'quick' else 2):
                 guarded(chk, check_history, chk, drv, make_history(rng, cls, tier))
@@ -524,10 +573,10 @@ def replay(rec):
             print('no replayable case in', f.get('what'))
             continue
         print('replaying', case)
-        if 'history' in case:
+        if 'data_seed2' in case or 'history' in case:
             import common
             c2 = common.Check('C04', 'replay', 0)
-            check_history(c2, None, case)
+            (check_history if 'history' in case else check_pair)(c2, None, case)
             for g in c2.d_fail:
                 bad += 1
                 print(' FAILS:', g['what'])
